@@ -289,6 +289,12 @@ func genWideOn(t *rapid.T, doc map[string]any, sc *c07Schema, only []string) *Wi
 			// top-level functions over arrays of the document (duplicates inside)
 			w.Tpl += ", " + rapid.SampledFrom([]string{"`distinct=>tags`", "`distinct=>mx[0]`", "`mix=>mx`", "`distinct=>tags[(0:3)]`"}).Draw(t, "tlf") + " AS tl"
 		}
+		if rapid.IntRange(0, 2).Draw(t, "continued") == 0 {
+			// `::` continues with the whole result of the stage before it: the first stage hands on an array of
+			// the document itself (a key, an index, a range), later stages project its elements
+			w.Tpl += ", " + rapid.SampledFrom([]string{"`" + items + "::" + p + "`", "`" + items + "[(0:1)]::" + p + "`", "`" + items + "::{" + p + "}`", "`" + items + "::{" + p + "|string," + q + "}`",
+				"`tags::[0]`", "`mx[0]::[1]`", "`mx::[each,0]`", "`" + items + "::" + q + "::[0]`", "`" + items + "[(begin:1)]::" + q + "`", "`mx[(0:2)]::[0]`"}).Draw(t, "cont") + " AS ct"
+		}
 		if rapid.Bool().Draw(t, "unwind") {
 			w.Tpl += fmt.Sprintf(", UNWIND(%s) AS u", sel("s2"))
 		}
